@@ -756,12 +756,12 @@ func evs(l []ev) string {
 }
 
 func TestProp(t *testing.T)    { prop.Check(t) }
-func TestRegress(t *testing.T) { prop.Regress(t); propWS.Regress(t) }
+func TestRegress(t *testing.T) { prop.Regress(t); propWS.Regress(t); propFeed.Regress(t) }
 func TestReplay(t *testing.T) {
 	if *hx.ReplayPath == "" {
 		t.Skip("no -replay")
 	}
-	if !prop.Replay(t, *hx.ReplayPath) && !propWS.Replay(t, *hx.ReplayPath) {
+	if !prop.Replay(t, *hx.ReplayPath) && !propWS.Replay(t, *hx.ReplayPath) && !propFeed.Replay(t, *hx.ReplayPath) {
 		t.Fatalf("no prop matches %s", *hx.ReplayPath)
 	}
 }
